@@ -14,7 +14,8 @@ Local Open Scope N_scope.
    3 query.ErrNotFound 4 query.ErrUniqueViolation 5 query.ErrInvalidParameters 6 query.ErrQuery
    7 control.ErrUnauthorized 9 validate.ErrValidation are encoded by a provider; 8 control.ErrControl
    and 10/11/12 validate.ErrRequired/ErrInvalidType/ErrConversion are declared but not encoded.
-   StreamErrors.tables_pinned proves the generated tables agree. *)
+   StreamErrors.parents_pinned / registered_pinned / agree (Properties: C14_tables_pinned) prove
+   that the tables regenerated from the Go sources agree. *)
 Definition reg_kinds : list N := [1; 2; 3; 4; 5; 6; 7; 9].
 Definition kind_parents : list (N * N) := [(3, 6); (4, 6); (5, 6); (7, 8); (10, 9); (11, 9); (12, 9)].
 Definition misa (k s : N) : bool := isa_tab kind_parents k s.
@@ -188,7 +189,8 @@ Definition ok_C14 (cl hl : list lab) : bool :=
 (* (transport, client observations, handler observations) *)
 Definition case_t : Type := (N * list lab * list lab)%type.
 
-Definition prof_of (t : N) : N := if t =? 0 then 0 else 1.
+(* mock, websocket and grpc are each checked against their own exact profile *)
+Definition prof_of (t : N) : N := if t =? 0 then 0 else if (t =? 1) || (t =? 2) then 2 else 3.
 
 Definition mismatch (c : case_t) : bool :=
   let '(t, cl, hl) := c in negb (accepts (prof_of t) t cl hl).
